@@ -5,7 +5,7 @@
  *                                              5 reg tx res-body hook 6 htp_tx_destroy(current tx)
  *   ops    = comma separated: O open, Q<hex> request data, S<hex> response data, q<n> request gap, s<n> response gap,
  *            c req close, C close, F tx_freed, D<k> htp_tx_destroy(k-th created tx)
- * output: per op  [@events@]rc:consumed:in_status:out_status:ntx  joined by '|' (events separated by spaces, printed by the
+ * output: per op  [@events@]rc:consumed:in_status:out_status:ntx:in_buf_size:|in_header|:out_buf_size:|out_header|  joined by '|' (events separated by spaces, printed by the
  *         callbacks while the call runs), then '||' conn summary ';' one dump per slot of conn->transactions (N = NULL slot) */
 #define CP_NHOOKS 21
 #define CP_MAXCALLS 64
@@ -142,7 +142,9 @@ static htp_cfg_t *cp_make_cfg(const char *cs) {
     return cfg;
 }
 static void cp_status(htp_connp_t *connp, int rc, size_t consumed) {
-    printf("%d:%zu:%d:%d:%zu", rc, consumed, (int) connp->in_status, (int) connp->out_status, htp_list_size(connp->conn->transactions));
+    printf("%d:%zu:%d:%d:%zu:%zu:%zu:%zu:%zu", rc, consumed, (int) connp->in_status, (int) connp->out_status, htp_list_size(connp->conn->transactions),
+           connp->in_buf ? connp->in_buf_size : 0, connp->in_header ? bstr_len(connp->in_header) : 0,
+           connp->out_buf ? connp->out_buf_size : 0, connp->out_header ? bstr_len(connp->out_header) : 0);
 }
 static int drv_connp(char **f, int nf) {
     if (strcmp(f[0], "connp") != 0) return 0;
